@@ -500,6 +500,59 @@ def rule_cursor_direction(m):
     return res
 
 
+def rule_cursor_live(m):
+    """F-CURSOR.live: a cursor that walks a neighbour list is not invalidated by what the loop body does to that list."""
+    from .rules_pair import Ctx, callee_events, _erase_cursor
+    from .model import GRAPH_CLASSES
+    res = RuleResult('F-CURSOR.live', 'inside a loop that walks the neighbour list A[x] with an iterator (j = A[x].begin(); j != '
+                                      'A[x].end()), entries of the same list are erased only through that iterator (erase(j++), '
+                                      'j = erase(j)): a remove(value) / clear() / erase of another position on A[x] - written in the '
+                                      'body or performed by a function the body calls - can free the node the iterator points to')
+    for f in m.fns:
+        if f.record not in GRAPH_CLASSES or f.is_lambda or not f.has_cfg:
+            continue
+        ctx = Ctx(m, f)
+        tt = ctx.tt
+        for ln in f.nodes:
+            if ln['k'] not in ('WhileStmt', 'ForStmt') or ln.get('cond', -1) < 0:
+                continue
+            c = tt.t(ln['cond'])
+            if not (c[0] == 'bin' and c[1] == '!=' and c[2][0] == 'var' and c[3][0] == 'mcall' and c[3][1] == 'std::list::end'
+                    and c[3][2][0] == 'idx' and ctx.ev.role(c[3][2][1]) == 'A'):
+                continue
+            cur, x = c[2], c[3][2][2]
+            body = set(f.descendants(ln['body'])) if ln.get('body', -1) >= 0 else set()
+            if not body:
+                continue
+            res.sites += 1
+            bad = None
+            for e in ctx.ev.of_kind('A.removeAll', 'A.clear', 'A.eraseIt'):
+                if e.node in body and e.args and e.args[0] == x and not e.extra.get('via'):
+                    if e.kind == 'A.eraseIt' and _erase_cursor(e) == cur:
+                        continue
+                    bad = (e.node, e.kind, None)
+            for cn in f.nodes:
+                if cn['i'] in body and cn['k'] in ('CXXMemberCallExpr', 'CallExpr') and 'callee' in cn:
+                    for e in callee_events(m, f, cn['i']):
+                        if e.kind in ('A.removeAll', 'A.clear', 'A.eraseIt', 'A.resize') and (e.kind == 'A.resize' or (e.args and e.args[0] == x)):
+                            if e.kind == 'A.eraseIt' and _erase_cursor(e) == cur:
+                                continue
+                            bad = (cn['i'], e.kind, e.extra.get('via'))
+            if bad:
+                res.fail(Finding('F-CURSOR.live', f.display(), 'list mutated under its cursor', f.nloc(bad[0]),
+                                 '`%s` %s on the list that the loop `%s` walks with the iterator `%s`: when the entry the iterator has '
+                                 'moved to holds the same value (adjacent duplicates) its node is freed and the next test / '
+                                 'dereference reads freed memory'
+                                 % (f.expr_text(bad[0])[:50], {'A.removeAll': 'removes every entry equal to a value', 'A.clear': 'clears',
+                                                               'A.eraseIt': 'erases another position', 'A.resize': 'reallocates the lists'}[bad[1]] +
+                                    (' (in %s)' % bad[2] if bad[2] else ''), show(('idx', ('var', 0), x), f.unit) if False else f.expr_text(ln['cond'])[:40],
+                                    show(cur, f.unit))))
+            else:
+                res.ok(dict(function=f.display(), loop=f.expr_text(ln['cond'])[:50]) if len(res.samples) < 8 else None, fn=f.display())
+    res.require_sites(4, 'cursor loops over neighbour lists')
+    return res
+
+
 def rule_sorted_range(m):
     """F-SORTED: binary searches only on ranges that are sorted at that point."""
     res = RuleResult('F-SORTED', 'std::binary_search / lower_bound / upper_bound / equal_range are applied to [begin, end) of a '
